@@ -45,7 +45,15 @@ func (c c13Case) source() string {
 		case "lit":
 			w.WriteString(a.Text)
 		case "sq":
-			w.WriteString("'" + a.Text + "'")
+			t := a.Text
+			if c.DQ && !strings.ContainsAny(c.Op, "%#") {
+				// the quotes are ordinary characters here, so a brace between
+				// them would end the expansion
+				t = strings.ReplaceAll(t, "}", `\}`)
+			}
+			w.WriteString("'" + t + "'")
+		case "bs":
+			w.WriteString(`\` + a.Text)
 		case "var":
 			fmt.Fprintf(&w, "${w%d}", i)
 		case "dqvar":
@@ -175,7 +183,20 @@ func c13Expect(c c13Case) c13Model {
 			q = false
 		}
 		switch a.Kind {
-		case "sq", "dqvar":
+		case "sq":
+			if c.DQ && !(strings.ContainsAny(c.Op, "%#") && c.Op != "#len") {
+				// inside double-quotes a single quote is an ordinary character
+				// (dash and bash agree); in the pattern of % and # it quotes
+				t = "'" + t + "'"
+			}
+			q = true
+		case "bs":
+			if c.DQ && !(strings.ContainsAny(c.Op, "%#") && c.Op != "#len") && !strings.Contains("$`\"\\}", t) {
+				// inside double-quotes a backslash that escapes nothing stays
+				t = `\` + t
+			}
+			q = true
+		case "dqvar":
 			q = true
 		case "canary":
 			t = "1"
@@ -489,6 +510,7 @@ func TestC13(t *testing.T) {
 		{{"dqvar", "Y v"}},
 		{{"canary", ""}},
 		{{"lit", "a"}, {"canary", ""}, {"sq", " "}},
+		{{"bs", "a"}, {"bs", "}"}, {"bs", " "}},
 	}
 	patsets := [][]wAtom{
 		nil,
@@ -555,13 +577,15 @@ func TestC13(t *testing.T) {
 		if c.Op != "" && c.Op != "#len" {
 			k := rapid.IntRange(0, 3).Draw(rt, "natoms")
 			for i := 0; i < k; i++ {
-				kind := rapid.SampledFrom([]string{"lit", "sq", "var", "dqvar", "canary"}).Draw(rt, "atom")
+				kind := rapid.SampledFrom([]string{"lit", "sq", "var", "dqvar", "canary", "bs"}).Draw(rt, "atom")
 				text := ""
 				switch kind {
 				case "lit":
 					text = rapid.SampledFrom([]string{"W", "x", "*", "?", "X*", "*l", "[a-z]", "é", ":", "a.b", "l{1", "{2", "a{1,", "a+", "^a"}).Draw(rt, "lit")
 				case "sq":
 					text = rapid.SampledFrom([]string{"W Q", "*", " ", "", "a:b", "é", "}", "}"}).Draw(rt, "sq")
+				case "bs":
+					text = rapid.SampledFrom([]string{"a", " ", "$", "}", `\`, "*", "'", `"`, "é"}).Draw(rt, "bs")
 				case "var", "dqvar":
 					text = valGen.Draw(rt, "wv")
 				}
